@@ -93,10 +93,21 @@ def mk_cfg(c, inplace=False):
                      seg_ctrl=enum_arg(SegmentationControl, c["segctrl"], key))
 
 
+def _bfv(f):
+    """the octets of a byte field; if its integer view says something else (the views of a field are one value), both"""
+    b = octs(f.as_bytes)
+    try:
+        if int(f.value) != int.from_bytes(bytes(b), "big") or int(f.byte_len) != len(b):
+            return b + ["integer view", int(f.value), "width", int(f.byte_len)]
+    except Exception:  # noqa
+        pass
+    return b
+
+
 def proj_cfg(c):
     return {"crc": int(c.crc_flag), "large": int(c.file_flag), "mode": int(c.trans_mode), "segctrl": int(c.seg_ctrl),
-            "dir": int(c.direction), "src": octs(c.source_entity_id.as_bytes), "dst": octs(c.dest_entity_id.as_bytes),
-            "seq": octs(c.transaction_seq_num.as_bytes)}
+            "dir": int(c.direction), "src": _bfv(c.source_entity_id), "dst": _bfv(c.dest_entity_id),
+            "seq": _bfv(c.transaction_seq_num)}
 
 
 def _name(v):
@@ -400,9 +411,12 @@ def op_cfdphdr_rt(a):
         def rest():
             d = fresh(lambda: PduHeader.unpack(rxbuf(raw, a["sfx"])))
             decode_other("cfdphdr", PduHeader.unpack)
+            own = proj_hdr(o)
             out = {"octets": octs(raw), "hlen": o.header_len, "plen": o.packet_len, "cfglen": cfglen,
                    "rawlen": AbstractPduBase.header_len_from_raw(bytes(raw)), "dec": proj_hdr(d), "dhlen": d.header_len,
                    "repack": octs(d.pack())}
+            if any(isinstance(x, str) for k in ("src", "dst", "seq") for x in own[k]):
+                out["own_fields"] = {k: own[k] for k in ("src", "dst", "seq")}      # views of a field disagree
             reuse_conf(conf)
             side_pack("cfdphdr", proj_hdr, o)
             return out
